@@ -9,6 +9,7 @@ import XzVerif.Lemmas.XzIoStep
 import XzVerif.Lemmas.XzIoQ4
 import XzVerif.Lemmas.XzIoQ5
 import XzVerif.Lemmas.XzIoQ2c
+import XzVerif.Lemmas.XzIoQ7
 
 namespace XzVerif.C17
 open XzVerif.XzIo
@@ -125,41 +126,66 @@ def failure_cleanup_statement : Prop :=
         ∃ e ∈ s.trace, (e.call = .fstat .dst ∨ e.call = .stat .dst c.o.force ∨ e.call = .unlink .dst) ∧ ∃ k, e.res = .err k) ∧
       (s.exitSt ≠ 0 ∨ s.userAbort = true ∨ ∃ m, ⟨.write m, .err EPIPE⟩ ∈ s.trace)
 
-/-- Proved part of `failure_cleanup`: at every prefix of every run, as long as the run has not succeeded the source
-    inode exists and no `unlink(source)` has been attempted. What is missing: the clauses about the removal of the
-    incomplete target and about the exit status (both are checked on the real program for every fault position by the
-    direct oracle and by the end-state comparison of tools/props/c17.py). -/
-theorem failure_cleanup_partial (c : Cfg α) (hsp : SparseOk c.zero c.ops) (dstExists : Bool) (n : Nat)
-    (hs : (run c dstExists n).success = false) :
-    (run c dstExists n).fs.srcLinked = true ∧ ∀ e ∈ (run c dstExists n).trace, e.call ≠ .unlink .src := by
+/-- Proved part of `failure_cleanup`, for every fault function, signal position and schedule:
+    (1) once a hard I/O error is in the trace (read/write/poll failing with anything but EINTR/EAGAIN, a failing
+        open, fstat(source), fsync, close(target) or `--force` unlink), a finished run has `success = false`;
+    (2) as long as the run has not succeeded — at every prefix, hence at every crash point — the source inode exists
+        and no `unlink(source)` has been attempted;
+    (3) a finished unsuccessful run is "loud": non-zero exit status, or a signal was seen (xz then dies by it), or a
+        write failed with EPIPE (which in reality comes with SIGPIPE).
+    What is missing from `failure_cleanup_statement`: the clause that the incomplete target has been unlinked (it is
+    checked on the real program for every fault position by the direct oracle and the end-state comparison of
+    tools/props/c17.py). -/
+theorem failure_cleanup_partial (c : Cfg α) (hsp : SparseOk c.zero c.ops) (dstExists : Bool) (n : Nat) :
+    let s := run c dstExists n
+    (s.pc = .done → (∃ e ∈ s.trace, hardErr e = true) → s.success = false) ∧
+    (s.success = false → s.fs.srcLinked = true ∧ ∀ e ∈ s.trace, e.call ≠ .unlink .src) ∧
+    (s.pc = .done → s.success = false →
+      s.exitSt ≠ 0 ∨ s.userAbort = true ∨ ∃ m, (⟨.write m, .err EPIPE⟩ : Event) ∈ s.trace) := by
+  intro s
   have i := inv_run hsp dstExists n
   have q := q2_runN hsp n _ (inv_start hsp dstExists 0 0) (q2_start (c := c) dstExists 0 0)
-  constructor
-  · cases h : (run c dstExists n).fs.srcLinked with
-    | true => rfl
-    | false => have := (i.srcGone h).2.1; rw [hs] at this; exact absurd this (by simp)
-  · intro e he hc
-    have h1 : (run c dstExists n).success = true := (q.srcUnl ⟨e, he, hc⟩).2.1
-    rw [hs] at h1; exact absurd h1 (by simp)
+  have q7 : Q7 s := q7_runN n _ (q7_start (c := c) dstExists 0 0)
+  refine ⟨?_, ?_, ?_⟩
+  · intro hd hh
+    rcases (q7.hard hh).1 with h | h
+    · exact h
+    · rw [show s.pc = .done from hd] at h; simp at h
+  · intro hs
+    constructor
+    · cases h : s.fs.srcLinked with
+      | true => rfl
+      | false =>
+        have h1 : s.success = true := (i.srcGone h).2.1
+        rw [hs] at h1; exact absurd h1 (by simp)
+    · intro e he hc
+      have h1 : s.success = true := (q.srcUnl ⟨e, he, hc⟩).2.1
+      rw [hs] at h1; exact absurd h1 (by simp)
+  · intro hd hs
+    exact q7.sad (by rw [show s.pc = .done from hd]; rfl) hs
 
-/-- FULL STATEMENT of `eintr_eagain_retry` (not yet proved in this generality): if every failed call in the trace is an
-    EINTR/EAGAIN on read/write/poll (or the ENOENT of the `--force` unlink), no signal arrived, the input is valid and
-    the source acceptable, then a finished run has succeeded with the unchanged exit status. -/
-def eintr_eagain_retry_statement : Prop :=
-  ∀ (α : Type) (c : Cfg α), SparseOk c.zero c.ops → ∀ (dstExists : Bool) (n : Nat),
+/-- EINTR, EAGAIN and short counts never turn into failure and never lose or duplicate bytes.  If every failed call
+    in the trace is an EINTR/EAGAIN on read/write/poll (or the ENOENT of the `--force` unlink) — short counts are not
+    failures at all —, no signal arrived, the input is valid and the source acceptable, then a finished run has
+    succeeded, and (writing to a file) the target holds exactly the coder output, durably when syncing is on.
+    (Exit status: such a run emits no error; warnings can still come from a source renamed by another process.) -/
+theorem eintr_eagain_retry (c : Cfg α) (hsp : SparseOk c.zero c.ops) (dstExists : Bool) (n : Nat)
+    (hi : c.init = .ok) (hf : c.fin = .ok) (hk : c.srcSkip = false)
+    (hb : ∀ e ∈ (run c dstExists n).trace, benign e = true)
+    (hua : (run c dstExists n).userAbort = false) (hd : (run c dstExists n).pc = .done) :
     let s := run c dstExists n
-    (∀ e ∈ s.trace, ∀ k, e.res = .err k →
-      ((k = EINTR ∨ k = EAGAIN) ∧ ((∃ m, e.call = .read m) ∨ (∃ m, e.call = .write m) ∨ (∃ t, e.call = .poll t))) ∨
-      (e.call = .unlinkForce ∧ k = ENOENT)) →
-    s.userAbort = false → c.init = .ok → c.fin = .ok → c.srcSkip = false → s.pc = .done →
-      s.success = true ∧ s.exitSt = 0
+    s.success = true ∧
+      (c.o.destStdout = false → c.o.mode ≠ .test →
+        s.fs.ownLinked = true ∧ content s.fs.own = payload c.ops ∧ (c.o.syncEff = true → s.fs.durable = true)) := by
+  intro s
+  have q6 : Q6 s := q6_runN hi hf hk n _ (q6_start (c := c) hi hf dstExists 0 0)
+  have hs : s.success = true := (q6 hb hua).ok (by rw [show s.pc = .done from hd]; rfl)
+  exact ⟨hs, fun h1 h2 => success_complete c hsp dstExists n hd hs h1 h2⟩
 
-/-- Proved part of `eintr_eagain_retry`: the data plane.  However many EINTR / EAGAIN / short counts hit the reads and
-    writes, a finished successful run has written each payload byte exactly once and in order (`success_complete`),
-    and while the run is in progress nothing has been lost yet: what is on disk, the hole being skipped, the rest of the
-    buffer in flight and the requests still to come always add up to the whole output (`LayoutEq` in the invariant).
-    What is missing: that such faults alone never make the run fail (checked on the real program by the storm plans). -/
-theorem eintr_eagain_retry_partial (c : Cfg α) (hsp : SparseOk c.zero c.ops) (dstExists : Bool) (n : Nat)
+/-- While a write is in progress nothing has been lost yet: what is on disk, the hole being skipped, the rest of the
+    buffer in flight and the requests still to come always add up to the whole output — whatever short counts,
+    EINTR or EAGAIN occurred so far. -/
+theorem write_layout (c : Cfg α) (hsp : SparseOk c.zero c.ops) (dstExists : Bool) (n : Nat)
     (hw : (run c dstExists n).pc = .write ∨ (run c dstExists n).pc = .writePoll) :
     let s := run c dstExists n
     s.destOpen = true →
@@ -200,5 +226,15 @@ example : ∃ e ∈ (run exCfg false 30).trace, e.call = .unlink .src := by deci
 /-- EINTR on the write, then a short count: the target still holds exactly the output -/
 example : let c := { exCfg with fault := fun k => if k = 8 then some (.err EINTR) else if k = 9 then some (.short 1) else none }
     (run c false 40).pc = .done ∧ content (run c false 40).fs.own = [1, 2, 3] ∧ (run c false 40).success = true := by decide +kernel
+
+/-- the hypotheses of `eintr_eagain_retry` are satisfiable by a run that did see EINTR and a short count -/
+example : let c := { exCfg with fault := fun k => if k = 8 then some (.err EINTR) else if k = 9 then some (.short 1) else none }
+    (∀ e ∈ (run c false 40).trace, benign e = true) ∧ (run c false 40).userAbort = false ∧ (run c false 40).pc = .done ∧
+    (⟨.write 2, .err EINTR⟩ : Event) ∈ (run c false 40).trace := by decide +kernel
+
+/-- the hypotheses of `failure_cleanup_partial` (1) are satisfiable: ENOSPC on the first write -/
+example : let c := { exCfg with fault := fun k => if k = 8 then some (.err 28) else none }
+    (run c false 40).pc = .done ∧ (∃ e ∈ (run c false 40).trace, hardErr e = true) ∧ (run c false 40).fs.ownLinked = false ∧
+    (run c false 40).exitSt = 1 := by decide +kernel
 
 end XzVerif.C17
